@@ -1576,7 +1576,20 @@ sqrt_signed_int(Type& to, const Type from, Rounding_Dir dir) {
   if (CHECK_P(To_Policy::check_sqrt_neg, from < 0)) {
     return assign_nan<To_Policy>(to, V_SQRT_NEG);
   }
-  return sqrt_unsigned_int<To_Policy, From_Policy>(to, from, dir);
+  // Note: the intermediate values computed by isqrt_rem() may exceed
+  // the maximum of the signed type: compute on the unsigned one.
+  typedef typename C_Integer<Type>::other_type Unsigned_Type;
+  Unsigned_Type q;
+  Unsigned_Type rem;
+  isqrt_rem(q, rem, static_cast<Unsigned_Type>(from));
+  to = static_cast<Type>(q);
+  if (round_not_requested(dir)) {
+    return V_GE;
+  }
+  if (rem == 0) {
+    return V_EQ;
+  }
+  return round_gt_int<To_Policy>(to, dir);
 }
 
 template <typename To_Policy, typename From1_Policy, typename From2_Policy,
